@@ -35,6 +35,8 @@ def run(tier):
               'into gin through real config text and gin.constant; non-trivial = a call using %name, a %name parse, '
               'a constant definition, a finalize')
   cc.model_check(rep, 'MC_Macros_quick', timeout=1200)
+  cc.replay_scenarios(rep, 'GinCore_Scen_const', max_files=600 if tier == 'quick' else 4000, nontrivial=_nontrivial,
+                      depth=5 if tier == 'quick' else 7, timeout=150 if tier == 'quick' else 900)
   n = 300 if tier == 'quick' else 4000
   cc.replay_behaviours(rep, 'GinCore_Sim_macros', num=n, depth=14, nontrivial=_nontrivial, generate=n * 6)
   return rep.finish()
